@@ -111,6 +111,15 @@ Qed.
 Lemma smean_ext f f' l : (forall r, f r = f' r) -> smean f l = smean f' l.
 Proof. intros H. unfold smean. rewrite (rsum_ext f f' l H). reflexivity. Qed.
 
+Lemma smean_ext_in f f' l : (forall r, In r l -> f r = f' r) -> smean f l = smean f' l.
+Proof. intros H. unfold smean. rewrite (rsum_ext_in f f' l H). reflexivity. Qed.
+Lemma scov_ext_in f f' g g' l : (forall r, In r l -> f r = f' r) -> (forall r, In r l -> g r = g' r) ->
+  scov f g l = scov f' g' l.
+Proof.
+  intros Hf Hg. unfold scov. rewrite (smean_ext_in f f' l Hf), (smean_ext_in g g' l Hg).
+  f_equal. apply rsum_ext_in. intros r Hr. rewrite (Hf r Hr), (Hg r Hr). reflexivity.
+Qed.
+
 Lemma svar_nonneg f l : 1 < cnt l -> 0 <= svar f l.
 Proof.
   intros Hn. unfold svar, scov. apply Rmult_le_pos.
